@@ -786,7 +786,7 @@ func c06DrawFault(s Src, chain []string) skFault {
 		case "break", "continue":
 			ok = !inLoop && !inFunc
 		case "return", "returnval", "return-multiline":
-			ok = !inFunc && !inLoop
+			ok = !inFunc // a return inside a top-level loop is still outside of any function
 		}
 		if ok {
 			f.Stmt = st
@@ -965,7 +965,10 @@ func c06Systematic(tier string) []*Case {
 	// statement-kind faults x enclosing constructs where they are faults
 	for _, st := range c06StmtFaults {
 		for _, enc := range encl {
-			stray := !strings.HasPrefix(st, "redecl")
+			stray := !strings.HasPrefix(st, "redecl") && !strings.Contains(st, "-in-func") && st != "shadow-builtin-call"
+			if strings.HasPrefix(st, "return") && (enc == "while" || enc == "for" || enc == "while-true" || enc == "for-nocond") {
+				stray = false // a return inside a top-level loop is stray as well: keep it
+			}
 			if stray && (enc == "while" || enc == "for" || enc == "while-true" || enc == "for-nocond" || strings.HasPrefix(enc, "func")) {
 				continue
 			}
@@ -1014,12 +1017,14 @@ func c06Systematic(tier string) []*Case {
 	cleanProgs["return-in-for"] = fmt.Sprintf("%s f() { %s (%s i = 0; ; i = i + 1) { %s (i == 4) { %s i; } } }\n%s f();\n", KwFun, KwFor, KwVar, KwIf, KwReturn, KwPrint)
 	cleanProgs["return-in-nested-loops"] = fmt.Sprintf("%s f() { %s (%s i = 0; i < 3; i = i + 1) { %s j = 0; %s (j < 3) { j = j + 1; %s (i == 1) { %s i * 10 + j; } } } %s 99; }\n%s f();\n", KwFun, KwFor, KwVar, KwVar, KwWhile, KwIf, KwReturn, KwReturn, KwPrint)
 	cleanProgs["break-continue"] = fmt.Sprintf("%s (%s i = 0; i < 6; i = i + 1) { %s (i == 1) { %s; } %s (i == 4) { %s; } %s i; }\n%s n = 0;\n%s (n < 5) { n = n + 1; %s (n == 2) { %s; } %s n; }\n", KwFor, KwVar, KwIf, KwContinue, KwIf, KwBreak, KwPrint, KwVar, KwWhile, KwIf, KwContinue, KwPrint)
+	cleanProgs["array-loop-with-len"] = fmt.Sprintf("%s a = [10, 20, 30];\n%s (%s i = 0; i < %s(a); i = i + 1) { %s a[i]; }\n%s %s(a) + 1;\n%s a[%s(a) - 1];\n", KwVar, KwFor, KwVar, FnLen, KwPrint, KwPrint, FnLen, KwPrint, FnLen)
+	cleanProgs["builtin-results-as-numbers"] = fmt.Sprintf("%s %s([1, 2]) * 2 + %s(4) - %s(2.4) + %s(-3) + %s(2, 3) + %s(1, 9) - %s(4, 2);\n%s (%s([1]) == 1) { %s \"eq\"; }\n", KwPrint, FnLen, FnSqrt, FnRound, FnAbs, FnPow, FnMax, FnMin, KwIf, FnLen, KwPrint)
 	cleanProgs["long-while"] = fmt.Sprintf("%s n = 0;\n%s (n < 5000) { n = n + 1; }\n%s n;\n", KwVar, KwWhile, KwPrint)
 	for _, name := range sortedStrKeys(cleanProgs) {
 		prog := cleanProgs[name]
 		want := map[string]string{"dead-fault": "ok\n", "short-circuit": "true\nfalse\n", "zero-trip-loops": "ok\n", "many-returning-calls": "2500\n", "fib-16": "987\n",
 			"deep-recursion-600": "0\n", "many-void-calls": "ok\n", "many-objects": "ok\n", "long-while": "5000\n",
-			"return-in-while": "3\n", "return-in-for": "4\n", "return-in-nested-loops": "11\n", "break-continue": "0\n2\n3\n1\n3\n4\n5\n",
+			"array-loop-with-len": "10\n20\n30\n4\n30\n", "builtin-results-as-numbers": "22\neq\n", "return-in-while": "3\n", "return-in-for": "4\n", "return-in-nested-loops": "11\n", "break-continue": "0\n2\n3\n1\n3\n4\n5\n",
 			"param-shadows-builtin": "4\n", "varlist-in-loop": "1\n2\n3\n", "decl-in-while": "1\n2\n3\n", "shadowing": "3\n2\n1\n4\n"}[name]
 		ccfg := scriptCfg(prog, "")
 		ccfg.Budget = 3000000
